@@ -1726,6 +1726,8 @@ class PSBTOut:
                     )
         elif self.witness_script:
             if self.redeem_script:
+                if not script_pubkey.is_p2sh() or not self.redeem_script.is_p2wsh():
+                    raise ValueError("WitnessScript included in non-p2wsh output")
                 h160 = script_pubkey.commands[1]
                 if self.redeem_script.hash160() != h160:
                     raise ValueError(
@@ -1733,6 +1735,8 @@ class PSBTOut:
                     )
                 s256 = self.redeem_script.commands[1]
             else:
+                if not script_pubkey.is_p2wsh():
+                    raise ValueError("WitnessScript included in non-p2wsh output")
                 s256 = script_pubkey.commands[1]
             if self.witness_script.sha256() != s256:
                 raise ValueError(
